@@ -1,87 +1,27 @@
 ----------------------------- MODULE MC_Value -------------------------------
 (***************************************************************************)
-(* Exhaustive small-scope exploration of the value format: every value of  *)
-(* container depth <= MaxDepth whose containers hold at most two items,    *)
-(* written as the first element of a stream (and every pair of values of a *)
-(* small pool as a two-element stream), then read back and re-encoded.     *)
-(*                                                                         *)
-(* Level 1 containers range over the FULL scalar domain (every type code,  *)
-(* several payloads each); deeper levels over the small domain, so that    *)
-(* the state space stays at 10^4..10^5 values.                             *)
+(* Exhaustive small-scope exploration of the value format (C02, mode M):   *)
+(* every value of ValueEnum!AllValues -- container depth <= 2, containers  *)
+(* of at most two items, every type code at depth 1 -- written as a        *)
+(* one-value stream, and every stream of at most MaxLen values of the      *)
+(* small pool Small1, then read back and re-encoded.                       *)
 (***************************************************************************)
-EXTENDS ValueCodec, TLC
+EXTENDS ValueCodec, ValueEnum, TLC
 
-CONSTANTS MaxDepth,   \* 2 or 3
-          SmallN,     \* how many scalars the nested levels range over (3..6)
-          MaxLen      \* values per stream
-
-W(n) == NatW8(n)
-MinI32 == SignExt(<<128, 0, 0, 0>>, 8)
-MinI64 == <<128, 0, 0, 0, 0, 0, 0, 0>>
-Pay(n) == [i \in 1..n |-> (i * 11) % 256]
-
-\* Values of different types must not meet in one TLC set (see Value!SameValue):
-\* every enumeration below is a SEQUENCE, ranged over by index.
-FullScalars ==
-  <<VNull, VBool(TRUE), VBool(FALSE),
-    VDecimal(W(0)), VDecimal(W(128)), VDecimal(Fill(8, 255)), VDecimal(MinI64),
-    VInt(W(0)), VInt(MinI32), VLong(W(1)), VLong(MinI64),
-    VFloat(<<0, 0, 0, 0>>), VFloat(<<127, 192, 0, 1>>), VDouble(Zeros(8)), VDouble(<<255, 248, 0, 0, 0, 0, 0, 1>>),
-    VDoubleSummary(<<63, 240, 0, 0, 0, 0, 0, 0>>, W(2), Zeros(8), <<64, 0, 0, 0, 0, 0, 0, 0>>),
-    VLongSummary(W(7), MinI32, Fill(8, 255), W(9)),
-    VText(<<>>), VText(<<97>>), VText(Pay(254)), VTextHash(W(0)), VTextHash(Fill(8, 255)),
-    VBlob(<<>>), VBlob(Pay(253)), VBlob(Pay(256)), VIP4(<<0, 0, 0, 0>>), VIP4(<<192, 168, 0, 255>>),
-    VIntArray(<<>>), VIntArray(<<W(1), MinI32>>), VFloatArray(<<>>), VFloatArray(<< <<63, 128, 0, 0>> >>),
-    VTextArray(<<>>), VTextArray(<< <<>>, <<97, 98>> >>), VLongArray(<<>>), VLongArray(<<MinI64, W(3)>>)>>
-
-SmallSeq == <<VNull, VDecimal(W(1)), VText(<<97>>), VBool(TRUE), VBlob(<<>>), VIntArray(<<W(2)>>)>>
-SmallScalars == SubSeq(SmallSeq, 1, SmallN)
-
-SKeys == << <<97>>, <<>> >>             \* "a" and the empty key
-IKeys == <<W(5), Fill(8, 255)>>         \* 5 and -1
-
-\* force a function over 1..n into a tuple (evaluated once)
-Tup(f) == f \o <<>>
-
-\* all sequences of at most two items of S (a sequence)
-UpTo2(S) == LET n == Len(S) IN
-  << <<>> >> \o [i \in 1..n |-> <<S[i]>>]
-             \o [k \in 1..(n * n) |-> <<S[((k - 1) \div n) + 1], S[((k - 1) % n) + 1]>>]
-\* all maps of at most two entries with distinct keys (K has two keys), both insertion orders
-Maps2(K, S) == LET n == Len(S) IN
-  << <<>> >> \o [k \in 1..(2 * n) |-> << <<K[((k - 1) \div n) + 1], S[((k - 1) % n) + 1]>> >>]
-             \o [k \in 1..(2 * n * n) |->
-                   LET o == (k - 1) \div (n * n)
-                       r == (k - 1) % (n * n)
-                   IN << <<K[1 + o], S[(r \div n) + 1]>>, <<K[2 - o], S[(r % n) + 1]>> >>]
-
-Containers(S) ==
-  Bind(S, LAMBDA s :
-    Bind(UpTo2(s), LAMBDA ls : Tup([i \in 1..Len(ls) |-> VList(ls[i])]))
-    \o Bind(Maps2(SKeys, s), LAMBDA ms : Tup([i \in 1..Len(ms) |-> VMap(ms[i])]))
-    \o Bind(Maps2(IKeys, s), LAMBDA ms : Tup([i \in 1..Len(ms) |-> VIntMap(ms[i])])))
-
-RECURSIVE SmallLevel(_)
-\* values of depth <= d over the small scalar domain
-SmallLevel(d) == IF d = 0 THEN SmallScalars ELSE SmallScalars \o Containers(SmallLevel(d - 1))
-
-AllValues == FullScalars \o Containers(FullScalars) \o Containers(SmallLevel(MaxDepth - 1))
-NAll == Len(AllValues)
-
-\* second and later elements of a stream
-Pool2 == SmallLevel(1)
+CONSTANT MaxLen      \* values per stream for the streams over Small1
 
 \* The first write is chosen in two steps (a block, then a value of the block)
-\* so that TLC's workers share the enumeration.
+\* so that TLC's workers share the enumeration.  blk = 0: not chosen yet;
+\* 1..NBlocks: a one-value stream over AllValues; NBlocks+1: a stream over Small1.
 VARIABLE blk
 NBlocks == 64
 mcvars == <<vars, blk>>
 MCInit == Init /\ blk = 0
-PickBlock == blk = 0 /\ blk' \in 1..NBlocks /\ UNCHANGED vars
+PickBlock == blk = 0 /\ blk' \in 1..(NBlocks + 1) /\ UNCHANGED vars
 MCNext == \/ PickBlock
           \/ /\ blk > 0 /\ UNCHANGED blk
-             /\ \/ (Len(vals) = 0 /\ \E i \in {j \in 1..NAll : j % NBlocks = blk - 1} : Write(AllValues[i]))
-                \/ (Len(vals) > 0 /\ Len(vals) < MaxLen /\ \E i \in 1..Len(Pool2) : Write(Pool2[i]))
+             /\ \/ (blk <= NBlocks /\ Len(vals) = 0 /\ \E i \in {j \in 1..NAll : j % NBlocks = blk - 1} : Write(AllValues[i]))
+                \/ (blk = NBlocks + 1 /\ Len(vals) < MaxLen /\ \E i \in 1..Len(Small1) : Write(Small1[i]))
                 \/ (Len(vals) > 0 /\ Open)
                 \/ Read
                 \/ ReEncode
@@ -94,9 +34,17 @@ Complete == (rpos > 0 /\ Len(again) = Len(vals)) =>
                /\ Len(backs) = Len(vals) /\ \A i \in 1..Len(vals) : SameValue(backs[i], vals[i])
                /\ \A i \in 1..Len(vals) : again[i] = EncValue(vals[i])
 
+\* the composite step used by trace validation is the composition of the four calls
+RTisComposition == (rpos > 0 /\ Len(vals) = 1 /\ Len(again) = 1) =>
+   \E e \in {EncValue(vals[1])} : \E d \in {DecValue(e, 1)} :
+      /\ d.ok /\ encs = <<e>> /\ wire = e /\ rpos = d.next
+      /\ SameValue(backs[1], d.v) /\ again = <<EncValue(d.v)>>
+
 \* the enumeration really is what the header says
 ASSUME \A i \in 1..Len(FullScalars) : IsValue(FullScalars[i]) /\ Depth(FullScalars[i]) = 0
 ASSUME {FullScalars[i].t : i \in 1..Len(FullScalars)} = ScalarCodes \cup ArrayCodes
-ASSUME \A i \in 1..NAll : Depth(AllValues[i]) <= MaxDepth
+ASSUME \A i \in 1..NAll : IsValue(AllValues[i]) /\ Depth(AllValues[i]) <= 2
+ASSUME \E i \in 1..NAll : Depth(AllValues[i]) = 2
+ASSUME UnknownTag
 ASSUME PrintT(<<"MC_Value values", NAll>>)
 =============================================================================
